@@ -178,7 +178,12 @@ def build(item: dict[str, Any], box: dict[str, Any]) -> Any:
         peers: list[GoodPeer] = []
 
         def factory(n: int) -> Peer | None:
-            p = GoodPeer(proto, cut if n == 0 else None, kind, st, item.get("pending", False))
+            nf, fkind = item.get("flaky", (0, "eof"))
+            if 1 <= n <= nf:
+                # the restarting peer already accepts TCP connections but drops / resets / ignores them before anything is exchanged
+                p = GoodPeer(proto, 0, fkind, {}, False)
+            else:
+                p = GoodPeer(proto, cut if n == 0 else None, kind, st, item.get("pending", False))
             peers.append(p)
             return p
 
@@ -344,7 +349,10 @@ def judge(item: dict[str, Any], box: dict[str, Any], choices: list[int], res: Re
         # client in time (the explorer may legitimately have delayed it past the client's timeouts).
         lim = ACK_TIME[proto] or 2.0
         owed = False
-        for ci in box["conns"][1:]:
+        nflaky = item.get("flaky", (0, ""))[0]
+        for idx, ci in enumerate(box["conns"][1:], start=1):
+            if idx <= nflaky:
+                continue  # (a connection of the flaky phase: the peer never answered on it)
             if ci["writes"] and not ci["pending_out"] and ci["delivered"]:
                 tw = ci["writes"][-1]
                 if ci["delivered"][-1][0] < tw + lim and len(ci["writes"]) <= (2 if proto == "doip" else 1):
@@ -362,6 +370,14 @@ def judge(item: dict[str, Any], box: dict[str, Any], choices: list[int], res: Re
                 f"request|reconnect-before-backoff|{outcome}|{kind}",
                 f"the peer accepted again {item['delay']} s after the cut, i.e. within the client's first back-off ({BACKOFF} s), but the client tried to reconnect at "
                 f"t={refused[0][0]} (cut at t={box['st'].get('cut_at')}), was refused and gave up with {o[3:]}",
+            )
+            return
+        if item.get("flaky") and proto == "doip" and not owed and not any(choices) and item["max_retry"] >= 1 and kind in ("eof", "rst"):
+            # DoIP reconnects within a window of 10 s: connections that are accepted and die before the routing activation completes
+            # (at most 2 x 2 s here) are part of the restart, the peer is fully back long before the window ends
+            v(
+                f"request|gave-up-during-flaky-restart|{outcome}|{kind}|flaky={item['flaky'][1]}",
+                f"the restarting peer dropped {item['flaky'][0]} connection(s) ({item['flaky'][1]}) before it served again; the client gave up with {o[3:]} after attempts {box['attempt_log']}",
             )
             return
         if owed:
@@ -541,6 +557,16 @@ def items(tier: str, seed: int) -> list[Any]:
                         out.append(
                             ({"proto": proto, "cut": cut, "kind": kind, "mode": "B", "timeout": 2.0, "delay": delay, "max_retry": mr}, min(bound, 1), cap)
                         )
+    # flaky restart: the first connection(s) after the outage are accepted and then dropped / reset / ignored
+    for proto in ("doip", "hsfz", "tcp"):
+        L = len(full_stream(proto))
+        for cut in sorted({0, L // 3, L // 2, L - 1}):
+            for kind in ("eof", "rst"):
+                for nf in (1, 2):
+                    for fkind in ("eof", "rst", "silence"):
+                        for mr in (1, 3):
+                            out.append(({"proto": proto, "cut": cut, "kind": kind, "mode": "B", "timeout": 2.0, "delay": 0.0 if nf == 1 else 0.35,
+                                         "max_retry": mr, "flaky": (nf, fkind)}, 0 if quick else 1, cap))
     # conformance of the loss model against real loopback sockets (few: real seconds)
     conf = [("tcp", 0, "eof"), ("tcp", 4, "eof"), ("tcp", 13, "eof"), ("tcp", 5, "rst"), ("doip", 17, "eof"), ("doip", 40, "rst"),
             ("hsfz", 10, "eof"), ("hsfz", 25, "eof"), ("doip", 51, "eof"), ("hsfz", 3, "rst")]
